@@ -37,11 +37,19 @@ ASSUMPTIONS = [
     "ceil in set_bpm) is an opaque parameter of the Model (hardware doubles in the driver); no theorem depends on it",
 ]
 MANIFEST_TEXT = (
-    "1.x: theorems v1_C01_roundtrip / v1_C01_reject / v1_C01_never_ub / v1_C01_fixed_point / v1_C01_representable for all "
-    "eleven legacy versions, all snapshots without NaN and all prior rows, about a statement-level Lean model of "
-    "create_track / update / snapshot() over the four legacy tables; tied on every run by differential replay of "
-    "generated snapshots (create and update-over-prior) with snapshot(), raw rows with decoded blobs and a second "
-    "write of the read-back, plus the Spec `normalize` evaluated on the real library's own answers.")
+    "1.x: theorems v1_C01_roundtrip / v1_C01_reject / v1_C01_never_ub / v1_C01_fixed_point(_rows) / v1_C01_representable "
+    "(14 fields verbatim + 11 under explicit arithmetic Repr... predicates, field by field) for all eleven legacy versions, "
+    "all snapshots without NaN and all prior rows, about a statement-level Lean model of create_track / update / snapshot() "
+    "over the four legacy tables; on the database of several tracks: round trip through both calls, acceptance converse "
+    "(v1_C01_db_create_accepts / _update_accepts: Spec accepts and path free => written), reject, UNIQUE(path), frame; a "
+    "failed call changes nothing on the statement sequence BEGIN; Track; MetaData; MetaDataInteger; PerformanceData; COMMIT "
+    "with a failure at any position (v1_C01_txn_create / _update / v1_C01_db_reject_unchanged, via the transaction theory "
+    "of C14); the blob columns are decode(encode v) of the byte-level codec model (v1_C01_codec_bridge(_slots), "
+    "v1_C01_roundtrip_through_bytes, on the locked C03 theorems); NaN stated (v1_C01_nan_total / _fields).  Tied on every "
+    "run by differential replay of generated snapshots (create and update-over-prior) with snapshot(), raw rows with "
+    "decoded blobs and a second write of the read-back, plus Spec `normalize` on the real library's own answers; a "
+    "fault-injection stream (failure at statement 0..7 of both calls: thrown => every observation of every track "
+    "unchanged, other track never changed, UNIQUE(path) refusal) and a NaN stream.")
 TRUSTED_EXTRA = ["tools/props/parts/_tracksv1_gen.py (generators), harness/djv_tracksv1.cpp (raw row dump with the "
                  "library's own blob decoders)"]
 
